@@ -441,6 +441,7 @@ func runC09(c *Ctx) {
 	runC09Round4(c)
 	runC09ValidateReadOnly(c)
 	runC09EntryForwards(c)
+	runC09CycleTime(c)
 }
 
 func mustFn(p *Prog, pk *packages.Package, T *types.Named, name string) *ssa.Function {
